@@ -160,6 +160,14 @@ def marking_equations(ck, an, want: set):
             snap["test"] = s
     fw = Forward(an, fa, on_stmt=on_stmt).run()
     if "guards" in want:
+        rets_ = returns_in(fa)
+        head_ = fa.cfg.node_of(loop.iter)
+        ck.check(not rets_ and head_ is not None and fa.cfg.every_path_from_passes(fa.cfg.entry.id, {head_.id}), "PATHCOUNT", "S4.marks-on-every-call", subj, fa.loc(rets_[0]) if rets_ else fa.f.loc,
+                 "every call of marking_to_market reaches the per-contract loop (nothing is skipped wholesale)", "marking_to_market can return before marking (a stale-quote shortcut / cache)",
+                 construct=stmt_text(rets_[0]) if rets_ else "marking loop")
+        src_ = fa.sym.canon(loop.iter)
+        ck.check("list(self._holdings_margins)" in src_ and "[contract]" in src_.replace(fa.f.params[1], "contract") or ("phi(" in src_), "ARGFLOW", "S4.marks-all-or-the-given-contract", subj, fa.loc(loop),
+                 "the loop covers every margined contract, or the one it was given", f"the marking loop ranges over {src_[:80]}", construct=stmt_text(loop))
         # margin-free contracts are skipped before any write; every other skip is the NaN-quote skip or the no-reference-yet skip
         skip_tests = []
         kinds = {"no-margin": 0, "nan-quote": 0, "no-reference": 0}
